@@ -9,8 +9,9 @@ from . import xsdmini
 
 def _real_schemas():
     from lxml import etree
-    m = etree.XMLSchema(etree.parse("/repo/xsd/ASCMHL.xsd"))
-    d = etree.XMLSchema(etree.parse("/repo/xsd/ASCMHLDirectory__combined.xsd"))
+    xd = xsdmini.XSD_DIR
+    m = etree.XMLSchema(etree.parse(xd + "/ASCMHL.xsd"))
+    d = etree.XMLSchema(etree.parse(xd + "/ASCMHLDirectory__combined.xsd"))
     return m, d
 
 
@@ -70,8 +71,8 @@ def run(max_files=6, per_file=250):
     import io
     from lxml import etree
     ms, ds = _real_schemas()
-    files = sorted(glob.glob("/repo/examples/scenarios/Output/**/*.mhl", recursive=True))[:max_files]
-    files += sorted(glob.glob("/repo/examples/scenarios/Output/**/ascmhl_chain.xml", recursive=True))[:2]
+    files = sorted(glob.glob(os.path.dirname(xsdmini.XSD_DIR) + "/examples/scenarios/Output/**/*.mhl", recursive=True))[:max_files]
+    files += sorted(glob.glob(os.path.dirname(xsdmini.XSD_DIR) + "/examples/scenarios/Output/**/ascmhl_chain.xml", recursive=True))[:2]
     n = 0
     disagreements = []
     for f in files:
